@@ -295,6 +295,38 @@ class LoopInfo:
         return self.node.lineno
 
 
+def module_literal(mi, name: str) -> Optional[Term]:
+    """A module-level name bound exactly once to a literal (number, string, tuple/list of those)."""
+    cache = getattr(mi, "_literals", None)
+    if cache is None:
+        cache = {}
+        counts: Dict[str, int] = {}
+        for node in mi.tree.body:
+            if isinstance(node, ast.Assign):
+                for t in node.targets:
+                    if isinstance(t, ast.Name):
+                        counts[t.id] = counts.get(t.id, 0) + 1
+                        cache[t.id] = node.value
+        for k in list(cache):
+            if counts.get(k, 0) != 1:
+                del cache[k]
+        mi._literals = cache
+    v = cache.get(name)
+    if v is None:
+        return None
+
+    def conv(n):
+        if isinstance(n, ast.Constant):
+            return ("const", n.value)
+        if isinstance(n, (ast.Tuple, ast.List)):
+            items = [conv(x) for x in n.elts]
+            if all(i is not None for i in items):
+                return ("tuple", tuple(items))
+        return None
+
+    return conv(v)
+
+
 def assigned_names(stmts: List[ast.stmt]) -> List[str]:
     out: List[str] = []
 
@@ -328,6 +360,14 @@ def assigned_names(stmts: List[ast.stmt]) -> List[str]:
                 if n.name not in out:
                     out.append(n.name)
     return out
+
+
+def elem_of(dom: Term, lid: int) -> Term:
+    """The element an iteration over `dom` yields.  Iterating a one-generator, unfiltered list
+    comprehension yields its element expression (same values, same order)."""
+    if dom[0] == "listcomp" and len(dom[2]) == 1 and not dom[2][0][2]:
+        return dom[1]
+    return ("iter", dom, lid)
 
 
 HEAP_FIELDS = {"cost", "color", "p", "pos", "last"}
@@ -734,8 +774,30 @@ class Walker:
             va, vb = a.get(k, ("undef",)), b.get(k, ("undef",))
             env[k] = va if va == vb else ("sel", cond, va, vb)
 
+    @staticmethod
+    def boolify(t: Term) -> Term:
+        """A boolean built by an inlined helper's early returns (`if c: return False ... return True`)
+        is the condition itself: sel(c, True, False) = c, sel(c, False, X) = (not c) and X, ..."""
+        if t[0] != "sel":
+            return t
+        c, a, b = t[1], Walker.boolify(t[2]), Walker.boolify(t[3])
+        T, F = ("const", True), ("const", False)
+        if a == T and b == F:
+            return c
+        if a == F and b == T:
+            return mk_not(c)
+        if a == F:
+            return ("and", (mk_not(c), b)) if b != T else mk_not(c)
+        if b == F:
+            return ("and", (c, a)) if a != T else c
+        if a == T:
+            return ("or", (c, b))
+        if b == T:
+            return ("or", (mk_not(c), a))
+        return t
+
     def if_(self, s: ast.If, env: Dict[str, Term]):
-        cond = self.ev(s.test, env)
+        cond = self.boolify(self.ev(s.test, env))
         self.guard_src.setdefault(cond, (s.lineno, "if " + unparse(s.test), self.fnstack[-1]))
         if cond[0] == "const" and isinstance(cond[1], (bool, int)):
             return self.block(s.body if cond[1] else s.orelse, env) or None
@@ -801,6 +863,8 @@ class Walker:
         def bind(t, path):
             if isinstance(t, ast.Name):
                 v = ("iter", dom, li.lid) if not path else ("iterproj", dom, li.lid, tuple(path))
+                if not path:
+                    v = elem_of(dom, li.lid)
                 if path == [1] and dom[0] == "call" and dom[1] == ("builtin", "enumerate") and len(dom[2]) == 1 \
                         and not dom[3]:
                     # `for i, x in enumerate(xs)`: x is xs[i]
@@ -865,6 +929,9 @@ class Walker:
             if e.id in imps:
                 return ("mod", imps[e.id])
             mi = self.repo.modules[self.fnstack[-1].module]
+            lit = module_literal(mi, e.id)
+            if lit is not None:
+                return lit
             if e.id in mi.functions:
                 return ("mod", f"{mi.name}.{e.id}")
             if e.id in mi.classes:
@@ -953,22 +1020,35 @@ class Walker:
         if isinstance(e, (ast.ListComp, ast.GeneratorExp, ast.SetComp)):
             cenv = dict(env)
             gens = []
+            pushed = 0
             for g in e.generators:
                 it = self.ev(g.iter, cenv)
                 self._lid += 1
                 lid = self._lid
+                li = LoopInfo(lid, "comp", self.fnstack[-1], e, tuple(self.guards), tuple(self.loopstack), domain=it)
+                li.first_seq = self._seq + 1
+                self.loops[lid] = li
 
-                def bind(t, path):
+                def bind(t, path, it=it, lid=lid):
                     if isinstance(t, ast.Name):
-                        cenv[t.id] = ("iter", it, lid) if not path else ("iterproj", it, lid, tuple(path))
+                        v = ("iter", it, lid) if not path else ("iterproj", it, lid, tuple(path))
+                        if not path:
+                            v = elem_of(it, lid)
+                        cenv[t.id] = v
                     elif isinstance(t, (ast.Tuple, ast.List)):
                         for i, x in enumerate(t.elts):
                             bind(x, path + [i])
 
                 bind(g.target, [])
+                self.loopstack.append(lid)
+                pushed += 1
                 conds = tuple(self.ev(c, cenv) for c in g.ifs)
                 gens.append((it, lid, conds))
-            return ("listcomp", self.ev(e.elt, cenv), tuple(gens))
+            elt = self.ev(e.elt, cenv)
+            for _ in range(pushed):
+                lid = self.loopstack.pop()
+                self.loops[lid].last_seq = self._seq
+            return ("listcomp", elt, tuple(gens))
         if isinstance(e, ast.JoinedStr):
             return ("opaque", "<fstring>")
         if isinstance(e, ast.Lambda):
@@ -1063,7 +1143,7 @@ class Walker:
         return t
 
     def inline_call(self, fi: FunctionInfo, recv, args, kwargs, e: ast.Call) -> Term:
-        if fi.decorators:
+        if any(d.split("(")[0].split(".")[-1] not in ("staticmethod", "njit", "jit") for d in fi.decorators):
             # a decorated helper is not its body (memoisation, wrapping, ...): keep the call opaque
             fn = ("attr", recv, fi.name) if recv is not None else ("mod", fi.fq)
             t = ("call", fn, args, kwargs)
@@ -1181,6 +1261,11 @@ def facts(guards) -> Tuple[Term, ...]:
 def has_guard(guards, term: Term) -> bool:
     """Is `term` (positive form) among the guards, whatever polarity/spelling the source used?"""
     return term in facts(guards)
+
+
+def entry_returns(w: "Walker") -> List[Event]:
+    """Return events of the entry function itself (not of helpers inlined into it)."""
+    return [e for e in w.events if e.kind == "return" and e.fn is w.entry]
 
 
 def guard_terms(ev: Event) -> List[Term]:
